@@ -67,6 +67,8 @@ type Options struct {
 	Assumptions []string
 	// MaxSamples kept in the stats file (default 3).
 	MaxSamples int
+	// Exhaustive: the fixed case list of RunFixed is a complete enumeration of the space named in Rule.
+	Exhaustive bool
 }
 
 type stats struct {
@@ -357,6 +359,7 @@ func Run[C any](t *testing.T, o Options, gen func(*rapid.T) C, run func(C, *Trac
 func RunFixed[C any](t *testing.T, o Options, cases []C, run func(C, *Trace) *Violation) {
 	rec := NewRecorder(t, o)
 	defer rec.Flush()
+	rec.SetExhaustive(o.Exhaustive)
 	for _, c := range cases {
 		tr := &Trace{}
 		v := Safe(func() *Violation { return run(c, tr) })
@@ -431,4 +434,44 @@ func RunWitnesses[C any](t *testing.T, o Options, forTest string, run func(C, *T
 			}
 		}
 	}
+}
+
+// RunEnum enumerates a finite indexed space. The shard (VERIF_SHARD of VERIF_SHARDS) takes the
+// indices congruent to it; with VERIF_TIER=quick only every stride-th of those is visited
+// (offset by VERIF_SEED), and the run is then not marked exhaustive.
+func RunEnum[C any](t *testing.T, o Options, n int, stride int, at func(i int) C, run func(C, *Trace) *Violation) {
+	rec := NewRecorder(t, o)
+	defer rec.Flush()
+	shard, _ := strconv.Atoi(os.Getenv("VERIF_SHARD"))
+	shards, _ := strconv.Atoi(os.Getenv("VERIF_SHARDS"))
+	if shards < 1 {
+		shards = 1
+	}
+	seed, _ := strconv.Atoi(os.Getenv("VERIF_SEED"))
+	step := shards
+	start := shard
+	full := true
+	if os.Getenv("VERIF_TIER") != "thorough" && stride > 1 {
+		step = shards * stride
+		start = shard + shards*(seed%stride)
+		full = false
+	}
+	for i := start; i < n; i += step {
+		c := at(i)
+		tr := &Trace{}
+		v := Safe(func() *Violation { return run(c, tr) })
+		rec.Record(c, tr)
+		if v == nil {
+			continue
+		}
+		if id := KnownID(o.Property, v); id != "" {
+			rec.Known(id)
+			continue
+		}
+		writeFail(o, t.Name(), c, v)
+		fmt.Fprintf(os.Stderr, "VERIF-VIOLATION kind=%s\n%s\n", v.Kind, v.Detail)
+		t.Fatalf("violation: %s", v.Kind)
+	}
+	rec.SetExhaustive(full)
+	rec.SetExtra("enumerated_space", n)
 }
